@@ -4,9 +4,11 @@
 // Error (the recovery actions call Diagnostic::from_error_recovery, proved in unit v_diag); the trees it builds respect
 // the grammar's arities (Type constructors).
 // Two of these clauses are the composition of facts PROVED per action in unit v_grammar (class G): each recovery action
-// returns Ok(None) after pushing one Error, and each Type action builds a node with the arity of its kind while every
-// other action stores the types it is given unchanged; what stays assumed is that the parser is the bottom-up
-// composition of its actions.
+// returns Ok(None) after pushing one Error; every Type action builds a node that respects the arities at every depth when
+// its children do, every member / item action passes that on, and OptAidl concludes all_arity_ok(types_of(tree))
+// (clauses C01.deep_arity_*, C01.tree_respects_arities). What stays assumed is that the parser is the bottom-up
+// composition of its actions (each action's preconditions G.children_wf_* are the postconditions of the actions that
+// produced its arguments).
 pub uninterp spec fn spec_parse_ok(c: Seq<char>) -> bool;
 pub uninterp spec fn spec_parse_tree(c: Seq<char>) -> Option<ast::Aidl>;
 pub uninterp spec fn spec_parse_diags(c: Seq<char>) -> Seq<Diagnostic>;
